@@ -15,13 +15,13 @@ RULE = (
     "(random finite, 0, 1, NaN, -1, 1e300); both shipped MCMC models; each member of a pair runs observed-subset -> "
     "add_observations -> sampling.sample (2 chains x 3 samples) -> distance chunks -> score chunks (GaussianDBAL all "
     "triples / sub-sampled, Random, Size; n_chunks 1-5; batches of 0-3 plates) -> select_next_plate (with/without the "
-    "k-per-sample policy), thorough also through the four CLI mains on files; every artefact compared byte-wise; a "
+    "k-per-sample policy), also through the four CLI mains on files (2 pairs quick, 96 thorough); every artefact compared byte-wise; a "
     "wrapper on add_observations compares the sampler's training arrays with the documented row set and transform; "
     "refusal cases (masked rows, negative, NaN). A case is one pair, one training-set check or one refusal; distinct = "
     "(screen hash, replacement kind, model, scorer, n_chunks, batch); non-trivial = >=1 masked row and >=1 observed row"
 )
 ASSUMPTIONS = ["observed values exactly 0 or 1 are outside the interaction model's transform (logit gives +-inf) and are not generated for it", "both members of a pair use the same seed and the same global numpy seed so that only masked values differ"]
-REQUIRED = {"pairs_compared": {"quick": 250, "thorough": 3000}, "artefacts_compared": {"quick": 1200, "thorough": 15000}, "training_set_checks": {"quick": 250, "thorough": 3000}, "refusals_checked": {"quick": 2000, "thorough": 25000}}
+REQUIRED = {"cli_pairs": {"quick": 1, "thorough": 40}, "pairs_compared": {"quick": 250, "thorough": 3000}, "artefacts_compared": {"quick": 1200, "thorough": 15000}, "training_set_checks": {"quick": 250, "thorough": 3000}, "refusals_checked": {"quick": 2000, "thorough": 25000}}
 N_PAIRS = {"quick": 320, "thorough": 4000}
 
 
@@ -73,7 +73,7 @@ def gen_pair_screen(rng, for_interaction):
     plates = ["p%d" % i for i in range(n_pl)]
     observed_plates = set(plates[:n_obs_pl])
     rows = []
-    if for_interaction or rng.random() < 0.5:
+    if (for_interaction and rng.random() < 0.6) or (not for_interaction and rng.random() < 0.5):
         for s in samples:
             for c in conds:
                 pos = int(rng.integers(2))
@@ -90,7 +90,7 @@ def gen_pair_screen(rng, for_interaction):
                 continue
         u = rng.random()
         t = [conds[a], conds[b]]
-        if u < 0.15:
+        if u < (0.35 if for_interaction else 0.15):
             t[int(rng.integers(2))] = ("", 0.0)
         elif u < 0.2:
             t = [("", 0.0), ("", 0.0)]
@@ -292,11 +292,11 @@ def run_shard(rec, tier, seed, shard, nshards):
                 except Exception as e:
                     rec.violation("C04/%s/wrong-exception-on-%s" % (m2, what), "%s.add_observations raised %r instead of ValueError" % (m2, e), w)
 
-    if tier == "thorough":
-        cli_pairs(rec, rng, shard)
+    if tier == "thorough" or shard == 0:
+        cli_pairs(rec, rng, shard, n=6 if tier == "thorough" else 2)
 
 
-def cli_pairs(rec, rng, shard):
+def cli_pairs(rec, rng, shard, n=6):
     """the four CLI mains in-process on files of a pair of screens"""
     from batchie.data import Screen
     from batchie.core import BayesianModel
@@ -304,7 +304,7 @@ def cli_pairs(rec, rng, shard):
     from .c18 import file_fp
 
     with kit.scratch_dir("vf-c04-") as tmp:
-        for ci in range(6):
+        for ci in range(n):
             kw = gen_pair_screen(rng, for_interaction=False)
             if kw is None:
                 continue
